@@ -113,14 +113,31 @@ Scale(s, m, r) == CASE s = 0 -> 1
 \* cosines, hence everything below, do not depend on it).  Their integer part is pattern IntScale(s).
 \*   4: every column 1e-5      5: one magnitude per component (1e-3, 1e3, 1e-5, 1e-9, 1e5, 1e-3), same in every mode
 \*   6: magnitudes differ between modes and components (1e-8 .. 1e5)      7: first component 1e-9, the others 1
-IntScale(s) == CASE s <= 3 -> s [] s \in {4, 5} -> 3 [] OTHER -> 1
-MagExp(s, m, j) == CASE s <= 3 -> 0
+\* patterns 8, 9: COMPLEX factor sets (correlation_index conjugates; congruence_coefficient / cp_permute_factors are
+\* real-only and not driven).  Row k of mode m of BOTH sets is multiplied by the unit RowPhase(m, k), column j of the
+\* second set by the Gaussian integer ColZ(s, m, j) (8: one per component, made unit-modulus by the harness; 9: differs
+\* between modes, applied as is).  |<a, b>| / (|a| |b|) is unchanged (ThComplex), so the real cosine matrices apply.
+IntScale(s) == CASE s <= 3 -> s [] s \in {4, 5, 8} -> 3 [] OTHER -> 1
+MagExp(s, m, j) == CASE s <= 3 \/ s >= 8 -> 0
                      [] s = 4 -> -5
                      [] s = 5 -> <<-3, 3, -5, -9, 5, -3>>[((j - 1) % 6) + 1]
                      [] s = 6 -> <<-3, 3, -5>>[m] + <<0, -2, 1, 0, -3, 2>>[((j - 1) % 6) + 1]
                      [] s = 7 -> IF j = 1 THEN -9 ELSE 0
-MagModeIndependent(s) == s # 6            \* one magnitude per stacked column: the stacked correlation index is invariant
-Magnified(s) == s >= 4
+MagModeIndependent(s) == s \notin {6, 9}     \* one scalar per stacked column: the stacked correlation index is invariant
+Magnified(s) == s \in 4..7
+Complex(s) == s >= 8
+ZTable == << <<0, 1>>, <<-1, 0>>, <<1, 2>>, <<0, -1>>, <<2, -1>>, <<3, 4>> >>
+ColZ(s, m, j) == CASE s = 8 -> ZTable[((j - 1) % 6) + 1] [] s = 9 -> ZTable[((j + m - 1) % 6) + 1] [] OTHER -> <<1, 0>>
+RowPhase(m, k) == << <<1, 0>>, <<0, 1>>, <<-1, 0>>, <<0, -1>> >>[((k + m - 1) % 4) + 1]
+\* Gaussian integers <<re, im>>
+CMul(x, y) == <<x[1] * y[1] - x[2] * y[2], x[1] * y[2] + x[2] * y[1]>>
+CConj(x) == <<x[1], -x[2]>>
+CAbs2(x) == x[1] * x[1] + x[2] * x[2]
+CScale(z, v) == [k \in 1..Len(v) |-> <<z[1] * v[k], z[2] * v[k]>>]             \* z * (real vector)
+CPhase(m, cv) == [k \in 1..Len(cv) |-> CMul(RowPhase(m, k), cv[k])]
+CHerm(a, b) == LET F[k \in 0..Len(a)] == IF k = 0 THEN <<0, 0>>
+                                          ELSE LET t == CMul(CConj(a[k]), b[k]) IN <<F[k - 1][1] + t[1], F[k - 1][2] + t[2]>>
+               IN  F[Len(a)]
 UniformScale(s) == IntScale(s) \in {0, 3}
 ScaleVec(a, v) == [k \in 1..Len(v) |-> a * v[k]]
 FromCols(cols) == [i \in 1..Len(cols[1]) |-> [j \in 1..Len(cols) |-> cols[j][i]]]
@@ -137,9 +154,11 @@ ExactPerms(R) == IF R <= FullPermR THEN Permutations(1..R) ELSE Dihedral(R)
 ExactCfg(R, M, a, b, p, s) ==
     [kind |-> "exact", R |-> R, M |-> M, a |-> a, b |-> b, p |-> p, s |-> s,
      A |-> FacA(R, M, a), B |-> FacB(R, M, b, p, IntScale(s)), w |-> WeightsB(R),
-     mag |-> [m \in 1..M |-> [j \in 1..R |-> MagExp(s, m, j)]]]
+     mag |-> [m \in 1..M |-> [j \in 1..R |-> MagExp(s, m, j)]],
+     cz  |-> [m \in 1..M |-> [j \in 1..R |-> ColZ(s, m, j)]],
+     rph |-> [m \in 1..M |-> [k \in 1..Len(ModePool(m)[1]) |-> IF Complex(s) THEN RowPhase(m, k) ELSE <<1, 0>>]]]
 ValidExact(c) ==
-    /\ c.R \in 1..MaxR /\ c.M \in 1..3 /\ c.a \in {0, 1} /\ c.b \in {0, 1} /\ c.s \in 0..7
+    /\ c.R \in 1..MaxR /\ c.M \in 1..3 /\ c.a \in {0, 1} /\ c.b \in {0, 1} /\ c.s \in 0..9
     /\ DOMAIN c.p = 1..c.R /\ IsPerm(c.p, c.R) /\ c.p \in ExactPerms(c.R)
     /\ c = ExactCfg(c.R, c.M, c.a, c.b, c.p, c.s)
 
@@ -169,10 +188,23 @@ ThCorr(c) ==
     /\ (c.b = c.a => \A m \in 1..c.M : CoverBoth(c.A[m], c.B[m]))
     /\ (c.b = c.a /\ UniformScale(c.s) => CoverBoth(StackRows(c.A, c.M), StackRows(c.B, c.M)))
     /\ (c.b # c.a => ~CoverBoth(StackRows(c.A, c.M), StackRows(c.B, c.M)) /\ ~CoverBoth(c.A[1], c.B[1]))
+\* complex sets: the modulus of the Hermitian inner product and the norms are those of the real integer columns
+\* (times |z|), hence |cos| is the real one; a product WITHOUT conjugation would not have this property
+ThComplex(c) ==
+    Complex(c.s) =>
+      \A m \in 1..c.M : \A i, j \in 1..c.R :
+         LET u  == Col(c.A[m], i)  v == Col(c.B[m], j)  z == c.cz[m][j]
+             ca == CPhase(m, CScale(<<1, 0>>, u))
+             cb == CPhase(m, CScale(z, v)) IN
+         /\ CAbs2(CHerm(ca, cb)) = CAbs2(z) * Dot(u, v) * Dot(u, v)
+         /\ CHerm(ca, ca) = <<Dot(u, u), 0>> /\ CHerm(cb, cb) = <<CAbs2(z) * Dot(v, v), 0>>
 \* (bound by quantifiers, not LET: TLC then evaluates the matrices once)
+\* Patterns >= 4 have the integer matrices of pattern IntScale(s) (the magnitudes / complex scalars are applied by the
+\* harness), so the theorems about (A, B) are those of that pattern and are not re-evaluated.
 ExactOK(c) ==
-    \A W \in {CongL(c.A, c.B, TRUE)} : \A W0 \in {CongL(c.A, ExB0(c), TRUE)} :
-        ThCosExact(c) /\ ThRange(c, W) /\ ThInvariant(c, W, W0) /\ ThRecover(c, W) /\ ThCorr(c)
+    IF c.s >= 4 THEN c.B = FacB(c.R, c.M, c.b, c.p, IntScale(c.s)) /\ IntScale(c.s) <= 3 /\ ThComplex(c)
+    ELSE \A W \in {CongL(c.A, c.B, TRUE)} : \A W0 \in {CongL(c.A, ExB0(c), TRUE)} :
+            ThCosExact(c) /\ ThRange(c, W) /\ ThInvariant(c, W, W0) /\ ThRecover(c, W) /\ ThCorr(c) /\ ThComplex(c)
 
 -----------------------------------------------------------------------------
 (* Generic family: the spec fixes sizes / flavours; values are drawn by the harness from VERIF_SEED *)
@@ -260,7 +292,7 @@ SeqsOver(S, n) == [1..n -> S]
 NoCfg == [kind |-> "none"]
 \* seeds only spread the enumeration over TLC's workers (one worker expands one seed)
 Seeds == {[kind |-> "seed", fam |-> "exact", R |-> r, M |-> m, b |-> b, s |-> s, f |-> f] :
-              r \in 1..MaxR, m \in 1..3, b \in {0, 1}, s \in 0..7, f \in 1..MaxR}
+              r \in 1..MaxR, m \in 1..3, b \in {0, 1}, s \in 0..9, f \in 1..MaxR}
          \cup {[kind |-> "seed", fam |-> "generic", R |-> r] : r \in 1..MaxR}
          \cup {[kind |-> "seed", fam |-> "metric", op |-> op] : op \in MetricOps}
          \cup {[kind |-> "seed", fam |-> "levexact", f |-> f, pad |-> pad] : f \in 1..Len(OrthFams), pad \in {0, 2}}
